@@ -3,8 +3,8 @@
 view(self) = [getter(m) for m in self.col]   (`col` is the underlying relationship collection, a list here).
 Assumed, as the class itself documents ("obj = creator(somevalue); assert getter(obj) == somevalue"): `_create(value)` returns a
 new intermediary object whose proxied value is `value`; getter / creator are pure.
-Proved: append, extend, +=, pop, __getitem__(int), __setitem__(int), __delitem__(int), clear, __len__ act on the view exactly as the
-same list operation acts on a plain list.  insert / slices / remove / iteration are in the bounded complement (slice assignment
+Proved: append, extend, +=, insert, pop, __getitem__(int), __setitem__(int), __delitem__(int), clear, __len__ act on the view exactly as the
+same list operation acts on a plain list.  slices / remove / iteration are in the bounded complement (slice assignment
 has recorded defects).  DESIGN §5 C50.
 """
 from pyvc.contract import fn, cls
@@ -31,6 +31,9 @@ fn(L + "extend", cls="AList", props=["C50"], returns="none", types={"values": "s
 # `+=` is extend() (checked against extend's contract, not its body) and hands back the proxy itself
 fn(L + "__iadd__", cls="AList", props=["C50"], types={"iterable": "seq"},
    ensures=["result is self", VIEW + " == " + OVIEW + " + iterable"], modifies=["contents(self.col)"])
+# insert() is a slice store `col[index:index] = [new]`: the index is clamped as a list clamps it (insert(-1, x) goes before the last value)
+fn(L + "insert", cls="AList", props=["C50"], returns="none", types={"index": "int"},
+   ensures=[VIEW + " == " + OVIEW + "[:index] + [value] + " + OVIEW + "[index:]"], modifies=["contents(self.col)"])
 INR = "(-len(self.col) <= index and index < len(self.col))"
 NIX = "ite(index < 0, index + len(" + OVIEW + "), index)"
 fn(L + "pop", cls="AList", props=["C50"], types={"index": "int"}, raises={"IndexError": "not " + INR},
